@@ -60,6 +60,15 @@ for name in names:
         subprocess.call(["git", "-C", "/repo", "worktree", "remove", "--force", wt])
         shutil.rmtree(wt, ignore_errors=True)
         shutil.rmtree(scratch, ignore_errors=True)
+if len(results) > 1:
+    out = os.path.join(root, "RESULTS-%s.json" % tier)
+    old = json.load(open(out)) if os.path.exists(out) else {}
+    repo_head = subprocess.check_output(["git", "-C", "/repo", "rev-parse", "--short", "HEAD"]).decode().strip()
+    for r in results:
+        old[r["name"]] = {"property": r["property"], "detected": r["detected"], "repo_head": repo_head,
+                          "checks": {k: {"rc": v["rc"], "keys": v["keys"]} for k, v in r["checks"].items()},
+                          **({"baseline": r["baseline"], "demo_patched_rc": r["demo_patched_rc"], "demo_clean_rc": r["demo_clean_rc"]} if "baseline" in r else {})}
+    json.dump(dict(sorted(old.items())), open(out, "w"), indent=1)
 nd = sum(1 for r in results if r["detected"])
 print("SUMMARY: %d/%d seeded changes detected (tier=%s)" % (nd, len(results), tier))
 sys.exit(0 if nd == len(results) else 1)
